@@ -15,7 +15,7 @@ def make_method(name, d, log):
     sets = d.get("sets", False)
 
     def m(self):
-        log.append((name, self.x, self.y))
+        log.append((name, self.x, self.y, self))
         if sets:
             self.y = 1
     m.__name__ = name
@@ -50,6 +50,9 @@ class System:
         del self.log[:]
         if a == "init":
             self.inst = self.cls()
+            # a bystander: a second instance of the same class; its methods must never run for the first one's changes
+            self.by = self.cls()
+            self.log[:] = [e for e in self.log if e[3] is self.inst]
             return
         p = self.inst
 
@@ -75,6 +78,10 @@ def replay(beh, opts):
     kf = set()
     for i, st in enumerate(steps):
         sysm.step(st)
+        stray = [x[0] for x in sysm.log if x[3] is not sysm.inst]
+        if stray:
+            return {"status": "diverge", "step": i, "kind": "bystander", "msg": "%s on one instance invoked %s of another instance of the same class" % (st["a"], stray),
+                    "expected": [], "observed": stray, "tags": [], "nontrivial": True, "kf": sorted(kf)}
         got = collections.Counter(x[0] for x in sysm.log)
         exp = collections.Counter(st["calls"])
         tags = set(st.get("kf", []))
@@ -96,7 +103,7 @@ def replay(beh, opts):
             ok = False
             bad = ("values", "after %s the object shows x=%r y=%r, spec expects %r" % (st["a"], sysm.inst.x, sysm.inst.y, st["val"]))
         if ok and st["a"] != "init" and not st["setter"]:
-            for name, x, y in sysm.log:
+            for name, x, y, _ in sysm.log:
                 if (x, y) != (st["val"]["x"], st["val"]["y"]):
                     ok = False
                     bad = ("stale_read", "%s: %s ran while the object showed x=%r y=%r, spec expects the new values %r"
